@@ -33,6 +33,10 @@ where
     fn map_soft_error(&self, _err: Self::Error) -> Result<Self::Output, Self::Error> {
         Ok(None)
     }
+
+    fn undo_on_soft_error(&self) -> bool {
+        true
+    }
 }
 
 impl<P> MapDecoratorMarker for ToOptionParser<P> {}
